@@ -1991,9 +1991,16 @@ parse_citation:
 
 				if (t->next && t->next->type == TABLE_CELL) {
 					print_const("&");
-					scratch->table_cell_count += t->next->len;
+
+					// Columns beyond kMaxTableColumns have no alignment of their own, so
+					// stop counting there (a wider table would overflow the short counter)
+					if ((scratch->table_cell_count >= kMaxTableColumns) || (t->next->len >= kMaxTableColumns)) {
+						scratch->table_cell_count = kMaxTableColumns;
+					} else {
+						scratch->table_cell_count += t->next->len;
+					}
 				}
-			} else {
+			} else if (scratch->table_cell_count < kMaxTableColumns) {
 				scratch->table_cell_count++;
 			}
 
